@@ -111,7 +111,44 @@ def apply(site):
     return old, txt[i]
 
 
+def refine():
+    """for every logged mutant whose first killer only reported `no-failing-input-found`, run the remaining checks of that
+    file until one reports a concrete failing input; results go to /tmp/mut/refined.jsonl"""
+    rows = [json.loads(l) for l in open("/tmp/mut/mutlog.jsonl")]
+    done = set()
+    if os.path.exists("/tmp/mut/refined.jsonl"):
+        done = {(d["file"], d["line"], d["new"]) for d in map(json.loads, open("/tmp/mut/refined.jsonl"))}
+    out = open("/tmp/mut/refined.jsonl", "a")
+    for d in rows:
+        if not (d.get("killer") or "").endswith("(no-input)") or (d["file"], d["line"], d["new"]) in done:
+            continue
+        sh("git checkout -q -- src", REPO)
+        path = os.path.join(REPO, d["file"])
+        txt = open(path).read().split("\n")
+        i = d["line"] - 1
+        if d["old"] not in txt[i]:
+            continue
+        txt[i] = txt[i].replace(d["old"], d["new"])
+        open(path, "w").write("\n".join(txt))
+        first = d["killer"].split()[0]
+        concrete = None
+        for chk in FILES[d["file"]]:
+            if chk == first:
+                continue
+            rc, o = sh(["bin/check", chk, "quick"], VERIF, timeout=1800)
+            vl = [l for l in o.splitlines() if l.startswith("VIOLATION")]
+            if any("no-failing-input-found" not in l for l in vl):
+                concrete = chk
+                break
+        d["concrete"] = concrete
+        out.write(json.dumps(d) + "\n"); out.flush()
+        print(d["file"], d["line"], d["new"], "->", concrete, flush=True)
+    sh("git checkout -q -- src", REPO)
+
+
 def main():
+    if sys.argv[1] == "refine":
+        return refine()
     n, seed = int(sys.argv[1]), int(sys.argv[2])
     only = sys.argv[3] if len(sys.argv) > 3 else ""
     rnd = random.Random(seed)
